@@ -18,6 +18,8 @@ For every primitive x buffer class x source kind the rule requires: no exception
 [offset, offset + byte length of the data) of the right storage, of data whose byte length equals the extent (no
 resize), coming from the requested place of the source; extracting primitives return a copy, viewing ones a view.
 """
+import re
+
 from ..core import rule
 from ..linear import Poly
 from ..peval import Builtin, Interp, Namespace, Obj, Opaque, PyExc, Sym
@@ -41,7 +43,7 @@ class Lab:
         self.kind = "bytearray" if clsname == "BufferByteArray" else "ndarray"
         np_ = I.np
         I.np = Namespace("np", dict(np_.table, frombuffer=Builtin("np.frombuffer", self.frombuffer), array=Builtin("np.array", lambda a, *r, **k: a), asarray=Builtin("np.asarray", lambda a, *r, **k: a),
-                                    prod=Builtin("np.prod", self.prod)))
+                                    prod=Builtin("np.prod", self.prod), can_cast=Builtin("np.can_cast", Lab.can_cast)))
         self.buf = Obj("instance", {"buffer": self.storage("self.buffer", self.kind), "capacity": Sym(Poly.atom("capacity"))}, cls=self.cls)
         def _memoryview(x):
             if isinstance(x, Obj) and getattr(x, "nbytes", None) is not None and getattr(x, "pykind", "buffer") != "list":
@@ -209,8 +211,26 @@ class Lab:
         d.attrs.pop(name, None)
         return d
 
-    def dtype(self, name, itemsize):
-        return Obj("dtype", {"name": name, "itemsize": itemsize}, name=f"dtype({name})")
+    def dtype(self, name, itemsize, byteorder="="):
+        return Obj("dtype", {"name": name, "itemsize": itemsize, "byteorder": byteorder}, name=f"dtype({name}{'' if byteorder == '=' else ', big-endian'})")
+
+    @staticmethod
+    def can_cast(frm, to, casting="safe"):
+        """numpy's rule for the dtypes of this model: 'no' = identical incl. byte order; 'equiv' = byte order may differ;
+        'safe' / 'same_kind' additionally allow widening (same_kind: also narrowing within floats)"""
+        fa, ta = getattr(frm, "attrs", None), getattr(to, "attrs", None)
+        if not (isinstance(fa, dict) and isinstance(ta, dict) and "itemsize" in fa and "itemsize" in ta):
+            raise AnalysisError(f"B1e: np.can_cast({frm!r}, {to!r})")
+        same = fa["name"] == ta["name"]
+        if casting == "no":
+            return same and fa.get("byteorder", "=") == ta.get("byteorder", "=")
+        if casting == "equiv":
+            return same
+        if casting == "safe":
+            return same or fa["itemsize"] < ta["itemsize"]
+        if casting in ("same_kind", "unsafe"):
+            return True
+        raise AnalysisError(f"B1e: np.can_cast casting={casting!r}")
 
     def run(self, meth, args, kwargs=None):
         I = self.I
@@ -370,16 +390,21 @@ def b1e(cx):
 
         # ---- update_from_nplike: layouts x conversion
         for layout in ("C", "F", "last axis strided", "0-d"):
-            for convert in (False, True):
+            for convert in (False, True, "byteorder"):
+                if convert == "byteorder" and layout != "C":
+                    continue
                 L = Lab(m, clsname)
                 f8, f4 = L.dtype("float64", 8), L.dtype("float32", 4)
                 ITEMS = Poly.atom("items") if layout != "0-d" else Poly.const(1)
-                val = L.ndarray("value", ITEMS, f8, "C" if layout == "0-d" else layout, 0 if layout == "0-d" else None)
-                dest = f4 if convert else f8
+                # (third mode: the value's dtype is float64 in the OTHER byte order -- another dtype than the destination's,
+                # it must be converted like any other: seeded C13-f called such dtypes "equivalent")
+                src_dt = L.dtype("float64", 8, ">") if convert == "byteorder" else f8
+                val = L.ndarray("value", ITEMS, src_dt, "C" if layout == "0-d" else layout, 0 if layout == "0-d" else None)
+                dest = f4 if convert is True else f8
                 r = one_path(L.run("update_from_nplike", [OFF, dest, val]), "update_from_nplike", L)
                 st = stores(L)
                 n += 1
-                want_nb = ITEMS * Poly.const(4 if convert else 8)
+                want_nb = ITEMS * Poly.const(4 if convert is True else 8)
                 why = ""
                 if r["exc"] is not None:
                     why = f"raises {r['exc'].etype}: {r['exc']}"
@@ -394,16 +419,24 @@ def b1e(cx):
                         why = f"stores {v.nbytes!r} bytes into a slice of {hi - lo!r}"
                     elif root is not val or roff != Poly.const(0):
                         why = "the stored data is not the whole value"
-                    elif bool(conv) != convert or (convert and conv is not dest):
-                        why = "dtype conversion missing / not to the destination dtype" if convert else "converted although the dtypes agree"
+                    elif bool(conv) != bool(convert) or (convert and conv is not dest):
+                        why = ("dtype conversion missing / not to the destination dtype" + (" (the value's bytes are in the other byte order: stored as they are they read as other numbers)" if convert == "byteorder" else "")) if convert else "converted although the dtypes agree"
                     elif _element_order_lost(v):
                         why = "the bytes stored are not the value's elements in index (row-major) order: " + _element_order_lost(v)
-                cx.check(not why, None, construct=f"{clsname}.update_from_nplike(offset, {'float32' if convert else 'float64'}, <float64 array, {layout} layout>)", detail="the value's bytes (converted first when the dtypes differ) at [offset, offset + nbytes)",
+                cx.check(not why, None, construct=f"{clsname}.update_from_nplike(offset, {'float32' if convert is True else 'float64'}, <{'big-endian ' if convert == 'byteorder' else ''}float64 array, {layout} layout>)", detail="the value's bytes (converted first when the dtypes differ) at [offset, offset + nbytes)",
                          bad_detail=why, anchor=anchor + ".update_from_nplike", sub="update_from_nplike")
     cx.need(n >= 30, f"only {n} primitive cases evaluated")
 
 
 # ------------------------------------------------------------------------------------------ K1e kernel argument conversion
+def _gap(cx, fn, exc, what):
+    """an AttributeError / NameError raised on one of the rule's OWN stand-in objects (the kernel, the buffer, the
+    argument description, a library namespace) is a gap of the model -- the real object may well have the attribute --
+    never a verdict"""
+    if exc is not None and exc.etype in ("AttributeError", "NameError") and re.search(r"<instance (KernelCpu|xbuffer|arg\w*|ctx|description)>|Namespace object|<cpu-context", str(exc.msg)):
+        cx.recog(False, fn, f"{what}: the evaluation needs `{str(exc.msg)[:120]}`, which the model of this rule does not provide")
+
+
 @rule("K1e", ["C17", "C02", "C07"], "KernelCpu.to_function_arg, evaluated with a recording ffi: numpy arrays and xobject arrays reach the kernel as a pointer to their first element IN PLACE (no temporary copy), typed from their own element type; compounds as storage address + offset; wrong byte order refused")
 def k1e(cx):
     """`to_function_arg` of the current source is run for every kind of argument against a recording `ffi_interface`
@@ -503,6 +536,7 @@ def k1e(cx):
                 continue
             why = ""
             if r["exc"] is not None:
+                _gap(cx, fn, r["exc"], "to_function_arg")
                 why = f"raises {r['exc'].etype}: {r['exc'].msg}"
             else:
                 out = r["result"]
@@ -533,16 +567,18 @@ def k1e(cx):
         L, I, me, rec = world(kind)
         st = L.buf.attrs["buffer"]
         ctx = Obj("cpu-context", {}, name="ctx")
-        xbuf = Obj("instance", {"buffer": st, "context": ctx}, name="xbuffer")
+        xbuf = L.buf  # an instance of the CURRENT buffer class on the abstract storage: its primitives are evaluated too
+        xbuf.attrs["context"] = ctx
         item = Obj("scalar", {"_c_type": "double", "_dtype": Obj("dtype", {"name": "float64"}, name="dt")}, name="Float64")
         val = Obj("xoarray", {"_buffer": xbuf, "_offset": OFFV, "_data_offset": DOFF, "_itemtype": item, "_shape": (3,), "_c_type": "Arr3Float64"}, name="value")
-        arg = Obj("instance", {"pointer": True, "atype": item, "name": "p"}, name="arg")
+        arg = I.call(I.global_lookup("context", "Arg"), [item], {"pointer": True, "name": "p"})
         res = I.explore(lambda: I.call(I.getattr(me, "to_function_arg"), [arg, val], {}), max_paths=8)
         cx.recog(len(res) == 1, fn, f"to_function_arg(xobject array in a {kind} buffer): {len(res)} paths")
         r = res[0]
         n += 1
         why = ""
         if r["exc"] is not None:
+            _gap(cx, fn, r["exc"], "to_function_arg")
             why = f"raises {r['exc'].etype}: {r['exc'].msg}"
         else:
             out = r["result"]
@@ -562,15 +598,28 @@ def k1e(cx):
                         why = f"slicing a {kind} copies: the kernel gets a pointer into a temporary copy of the buffer's tail (writes are lost, reads may see released memory)"
         cx.check(not why, None, construct=f"pointer argument <- xobject Float64[3] living in a {'BufferByteArray' if kind == 'bytearray' else 'BufferNumpy'}", detail="pointer to the array's first element inside the buffer's current storage, typed from the item type",
                  bad_detail=why, anchor="context_cpu::KernelCpu.to_function_arg", sub="xoarray.ptr")
+        # an xobject array of ANOTHER element type than the declared one: refused, or typed from the array's own item
+        # type (cffi then refuses it) -- never passed as the declared type (seeded C17-c)
+        item32 = Obj("scalar", {"_c_type": "int32_t", "_dtype": Obj("dtype", {"name": "int32"}, name="dt32")}, name="Int32")
+        val32 = Obj("xoarray", {"_buffer": xbuf, "_offset": OFFV, "_data_offset": DOFF, "_itemtype": item32, "_shape": (3,), "_c_type": "Arr3Int32"}, name="value32")
+        res = I.explore(lambda: I.call(I.getattr(me, "to_function_arg"), [arg, val32], {}), max_paths=8)
+        cx.recog(len(res) == 1, fn, f"to_function_arg(xobject Int32 array for double*): {len(res)} paths")
+        r = res[0]
+        n += 1
+        _gap(cx, fn, r["exc"], "to_function_arg")
+        typed = r["result"][1] if r["exc"] is None and isinstance(r["result"], tuple) and len(r["result"]) > 1 else None
+        cx.check(r["exc"] is not None or typed == "int32_t*", None, construct=f"double* argument <- xobject Int32[3] ({'BufferByteArray' if kind == 'bytearray' else 'BufferNumpy'})", detail="refused, or typed int32_t* from the array's own item type (so that cffi refuses it)",
+                 bad_detail=f"handed to the kernel as {typed}: Int32 elements are read as doubles", anchor="context_cpu::KernelCpu.to_function_arg", sub="xoarray.type")
     # ---- compound xobjects: storage address + current offset, typed as the declared class; scalars by value
     for kind in ("ndarray", "bytearray"):
         L, I, me, rec = world(kind)
         st = L.buf.attrs["buffer"]
         ctx = Obj("cpu-context", {}, name="ctx")
-        xbuf = Obj("instance", {"buffer": st, "context": ctx}, name="xbuffer")
+        xbuf = L.buf
+        xbuf.attrs["context"] = ctx
         atype = Obj("xoclass", {"_c_type": "MyStruct", "_size": 24}, name="MyStruct")
         val = Obj("xostruct", {"_buffer": xbuf, "_offset": OFFV}, name="value")
-        arg = Obj("instance", {"pointer": False, "atype": atype, "name": "obj"}, name="arg")
+        arg = I.call(I.global_lookup("context", "Arg"), [atype], {"pointer": False, "name": "obj"})
         st2 = L.storage("storage after growth", kind)
 
         def twice():
@@ -585,27 +634,47 @@ def k1e(cx):
         n += 1
         why = ""
         if r["exc"] is not None:
+            _gap(cx, fn, r["exc"], "to_function_arg")
             why = f"raises {r['exc'].etype}: {r['exc'].msg}"
         else:
             out, again = r["result"]
             from ..peval import topoly as _tp0
-            if not (isinstance(again, tuple) and _tp0(again[2]) is not None and _tp0(again[2]) == Poly.atom(f"address({st2.name})") + P(OFFV)):
+
+            def where(ptr):
+                """-> (storage, start offset, is a copy) of a pointer given as `address(storage) + offset` or as the
+                address of a slice of the storage"""
+                p_ = _tp0(ptr) if not isinstance(ptr, tuple) else None
+                if p_ is not None:
+                    for stx in (st, st2):
+                        a_ = Poly.atom(f"address({stx.name})")
+                        if (p_ - a_).atoms().isdisjoint({f"address({st.name})", f"address({st2.name})"}) and f"address({stx.name})" in {str(x) for x in p_.atoms()}:
+                            return stx, p_ - a_, False
+                    return None
+                if isinstance(ptr, tuple) and ptr[0] == "address-of":
+                    d_ = ptr[1]
+                    org = getattr(d_, "origin", None)
+                    if isinstance(org, tuple):
+                        root, roff = org
+                        return getattr(root, "base", root), roff, not getattr(d_, "is_view", False)
+                return None
+
+            w2 = where(again[2]) if isinstance(again, tuple) and len(again) > 2 else None
+            w1 = where(out[2]) if isinstance(out, tuple) and len(out) > 2 else None
+            if w2 is None or w2[0] is not st2 or w2[1] != P(OFFV):
                 why = f"after the buffer grew (new storage) the pointer is {again[2] if isinstance(again, tuple) else again!r}: a remembered address of the OLD storage is used"
-            want = Poly.atom(f"address({st.name})") + P(OFFV)
-            from ..peval import topoly as _tp
-            if why:
-                pass
             elif not (isinstance(out, tuple) and out[0] == "pointer" and out[1] == "MyStruct"):
                 why = f"typed {out[1] if isinstance(out, tuple) else out!r}, expected the declared class MyStruct"
-            elif _tp(out[2]) is None or _tp(out[2]) != want:
+            elif w1 is None or w1[0] is not st or w1[1] != P(OFFV):
                 why = f"pointer is {out[2]!r}, expected address of the current storage + value._offset"
+            elif w1[2] or w2[2]:
+                why = f"the pointer addresses a COPY of the buffer's bytes (slicing a {kind} copies): what the kernel writes is lost"
         cx.check(not why, None, construct=f"by-value compound argument <- struct living in a {'BufferByteArray' if kind == 'bytearray' else 'BufferNumpy'}", detail="address of the buffer's current storage + the object's current offset, typed as the declared class",
                  bad_detail=why, anchor="context_cpu::KernelCpu.to_function_arg", sub="compound.ptr")
     L, I, me, rec = world("ndarray")
     conv = []
     sc = Obj("scalar", {"_dtype": Obj("dtype", {"name": "float64"}, name="dt"), "_c_type": "double"}, name="Float64")
     sc.attrs["__call__"] = Builtin("Float64()", lambda v=0: (conv.append(v), ("float64", v))[1])
-    arg = Obj("instance", {"pointer": False, "atype": sc, "name": "s"}, name="arg")
+    arg = I.call(I.global_lookup("context", "Arg"), [sc], {"pointer": False, "name": "s"})
     res = I.explore(lambda: I.call(I.getattr(me, "to_function_arg"), [arg, 0.5], {}), max_paths=4)
     n += 1
     cx.check(len(res) == 1 and res[0]["exc"] is None and res[0]["result"] == ("float64", 0.5) and conv == [0.5], None, construct="by-value scalar argument", detail="converted with the declared scalar type",
@@ -618,8 +687,8 @@ def k1e(cx):
     sc64.attrs["__call__"] = Builtin("Float64()", lambda v=0: ("float64", repr(float(v))))
     sci = Obj("scalar", {"_dtype": Obj("dtype", {"name": "int64"}, name="dti"), "_c_type": "int64_t"}, name="Int64")
     sci.attrs["__call__"] = Builtin("Int64()", lambda v=0: ("int64", repr(int(v))))
-    a64 = Obj("instance", {"pointer": False, "atype": sc64, "name": "s"}, name="arg")
-    ai = Obj("instance", {"pointer": False, "atype": sci, "name": "k"}, name="argk")
+    a64 = I.call(I.global_lookup("context", "Arg"), [sc64], {"pointer": False, "name": "s"})
+    ai = I.call(I.global_lookup("context", "Arg"), [sci], {"pointer": False, "name": "k"})
     seq = [(a64, 0.0), (a64, -0.0), (a64, 1), (ai, 1), (ai, True), (a64, 1.0), (a64, -0.0)]
 
     def calls():
@@ -638,4 +707,4 @@ def k1e(cx):
         cx.check(k_ is None, None, construct="by-value scalars 0.0, -0.0, 1 (double), 1 (int64), True (int64), 1.0, -0.0 through one converter", detail="every call delivers its own value, converted by the declared type",
                  bad_detail=(f"call {k_ + 1} was given {seq[k_][1]!r} for a {'double' if seq[k_][0] is a64 else 'int64_t'} argument and delivers {got[k_]!r} (expected {want[k_]!r}): an earlier call's result is handed out again for a value that merely compares equal" if k_ is not None else ""),
                  anchor="context_cpu::KernelCpu.to_function_arg", sub="scalar.sequence")
-    cx.need(n >= 12, f"only {n} argument cases evaluated")
+    cx.need(n >= 14, f"only {n} argument cases evaluated")
